@@ -6,7 +6,6 @@ package main
 
 import (
 	"fmt"
-	"reflect"
 )
 
 // enumAdapter is the type-erased view of one container in one state.
@@ -27,11 +26,14 @@ type enumAdapter struct {
 	recvKey  func() string
 	recvObj  any
 	recheck  func() *Viol // receiver still agrees with its reference
+	// followCap > 0: result-as-root continuations use an evenly spaced selection of this many operations
+	// (family jobs over large universes)
+	followCap int
 }
 
 func posOf(seq []Pair, a any) int {
 	for i, p := range seq {
-		if reflect.DeepEqual(p.A, a) {
+		if anyEqv(p.A, a) {
 			return i
 		}
 	}
@@ -118,12 +120,21 @@ func enumMaps(n, k, maxAll, maxFns int, st *Stats) [][]int {
 
 // resultAsRoot: the container returned by Select / Map is itself a start state - every operation of
 // the alphabet is applied to a freshly computed result, each step under the family's own oracle.
-func resultAsRoot(mk func() Box, what string, st *Stats) *Viol {
+func resultAsRoot(mk func() Box, what string, maxOps int, st *Stats) *Viol {
 	b0 := mk()
 	if b0 == nil {
 		return nil
 	}
-	for _, o := range b0.Ops() {
+	ops := b0.Ops()
+	if maxOps > 0 && len(ops) > maxOps {
+		// large receivers (family mode): an evenly spaced selection of the alphabet, first and last included
+		var sel []Op
+		for i := 0; i < maxOps; i++ {
+			sel = append(sel, ops[i*(len(ops)-1)/(maxOps-1)])
+		}
+		ops = sel
+	}
+	for _, o := range ops {
 		rb := mk()
 		d := rb.Describe(o)
 		v := safeStep(rb, o, nil)
@@ -142,8 +153,12 @@ func enumCheck(ad *enumAdapter, maxAll, maxMapFns int, st *Stats) *Viol {
 	p := tag("C14")
 	n := len(ad.seq)
 	key0 := ad.recvKey()
+	famOps := ad.followCap
 	if n > maxAll {
 		st.Nested["enum_states_family_mode"]++
+		if famOps == 0 {
+			famOps = 16
+		}
 	}
 	var log []Pair
 	checkLog := func(what string, full bool, stopAt int) *Viol {
@@ -235,9 +250,11 @@ func enumCheck(ad *enumAdapter, maxAll, maxMapFns int, st *Stats) *Viol {
 			return viol(p, "invariant", "Select on %s returned the receiver itself", ad.name)
 		}
 		st.Nested["enum_calls"] += 4
-		if v := resultAsRoot(func() Box { _, _, _, box := ad.selectF(quiet); return box(exp) },
-			fmt.Sprintf("Select(%s) on %s %v", ep.name, ad.name, ad.seq), st); v != nil {
-			return v
+		if n <= maxAll || ep.name == "always" || ep.name == "even" || ep.name == "back half" {
+			if v := resultAsRoot(func() Box { _, _, _, box := ad.selectF(quiet); return box(exp) },
+				fmt.Sprintf("Select(%s) on %s %v", ep.name, ad.name, clipSeq(ad.seq)), famOps, st); v != nil {
+				return v
+			}
 		}
 		if pi == len(preds)-1 || pi == 1 || ep.name == "always" || ep.name == "first" {
 			// independence (also catches package-level scratch state): a second result, then
@@ -300,7 +317,7 @@ func enumCheck(ad *enumAdapter, maxAll, maxMapFns int, st *Stats) *Viol {
 					return choice[i]
 				})
 				return box(choice)
-			}, fmt.Sprintf("Map(position -> codomain %v) on %s %v", choice, ad.name, ad.seq), st); v != nil {
+			}, fmt.Sprintf("Map(position -> codomain %v) on %s %v", choice, ad.name, clipSeq(ad.seq)), famOps, st); v != nil {
 				return v
 			}
 		}
@@ -546,4 +563,11 @@ func init() {
 			}
 		})
 	}
+}
+
+func clipSeq(seq []Pair) string {
+	if len(seq) <= 12 {
+		return fmt.Sprint(seq)
+	}
+	return fmt.Sprintf("%v .. (%d elements) .. %v", seq[:4], len(seq), seq[len(seq)-2:])
 }
